@@ -314,7 +314,7 @@ func Run(ctx *common.Ctx) {
 	for _, k1 := range kinds {
 		for pos := 0; pos < 3; pos++ {
 			for _, ex := range exits {
-				g := &gen{rng: ctx.Rng, safe: false, forceKind: []string{k1}, forcePos: []int{pos, pos}, forceExit: ex}
+				g := &gen{rng: ctx.Rng, safe: false, forceKind: []string{k1}, forcePos: []int{pos, pos}, forceExit: ex, nilWrap: pos == 1}
 				b := sysWrap(g, 1)
 				ctx.Hist("sys1:" + k1)
 				add(b, "sys1 "+k1+" "+ex)
@@ -325,7 +325,7 @@ func Run(ctx *common.Ctx) {
 		for _, k2 := range kinds {
 			for _, ex := range exits[1:] {
 				pos := ctx.Rng.Intn(3)
-				g := &gen{rng: ctx.Rng, safe: false, forceKind: []string{k1, k2}, forcePos: []int{ctx.Rng.Intn(3), ctx.Rng.Intn(3), pos, pos}, forceExit: ex}
+				g := &gen{rng: ctx.Rng, safe: false, forceKind: []string{k1, k2}, forcePos: []int{ctx.Rng.Intn(3), ctx.Rng.Intn(3), pos, pos}, forceExit: ex, nilWrap: ctx.Rng.Chance(40)}
 				b := sysWrap(g, 2)
 				ctx.Hist("sys2")
 				add(b, "sys2 "+k1+" "+k2+" "+ex)
@@ -334,7 +334,7 @@ func Run(ctx *common.Ctx) {
 	}
 	// (2) random nestings, depth 1..5; half of them steered towards places that deliver the exit
 	for i := 0; i < nrandom; i++ {
-		g := &gen{rng: ctx.Rng, safe: ctx.Rng.Chance(50)}
+		g := &gen{rng: ctx.Rng, safe: ctx.Rng.Chance(50), nilWrap: ctx.Rng.Chance(25)}
 		d := 1 + ctx.Rng.Intn(5)
 		b := wrap(g, d)
 		mode := "wild"
@@ -372,6 +372,9 @@ func wrapIn(g *gen, d int, w string) *Form {
 	}
 	g.nextBlk++
 	bt := g.nextBlk
+	if g.nilWrap {
+		bt = 0
+	}
 	g.nextTag++
 	tt := g.nextTag
 	tagbody := func(f *Form) *Form {
